@@ -70,6 +70,68 @@ def main(tier, seed):
             "import_ok": 0}
     samples = []
 
+    # ---- behaviour of the module written for schemas/py_beh.exp: values of DERIVE attributes (nested - / * + ** DIV MOD),
+    # WHERE rules, and which values the attribute setters accept (every simple type, defined types, enumeration, aggregates)
+    BEH_DERIVE = {"remaining": 14.0, "left_nested": 10.0, "share": 5.0, "prod": 200.0, "mixed": 1.0, "grouped": 10.0, "powr": 81.0,
+                  "neg": -5.0, "idiv": 2.0, "imod": 1.0, "chain": 15.0}
+    BEH_SET = {("remaining", "derived"): "refuse",
+               ("closed", "bool"): "accept", ("closed", "real"): "refuse", ("closed", "string"): "refuse", ("closed", "none"): "refuse",
+               ("locked", "bool"): "accept", ("locked", "none"): "accept", ("locked", "int"): "refuse",
+               ("state", "unknown"): "accept", ("state", "string"): "refuse",
+               ("label", "string"): "accept", ("label", "int"): "refuse", ("label", "bool"): "refuse",
+               ("size", "real"): "accept", ("size", "string"): "refuse", ("size", "bool"): "refuse",
+               ("cnt", "int"): "accept", ("cnt", "string"): "refuse", ("cnt", "real"): "refuse",
+               ("num", "real"): "accept", ("num", "int"): "accept", ("num", "string"): "refuse",
+               ("flag", "bool"): "accept", ("flag", "string"): "refuse",
+               ("len", "defined"): "accept", ("len", "string"): "refuse",
+               ("col", "item"): "accept", ("col", "string"): "refuse", ("col", "int"): "refuse",
+               ("history", "list_of_boolean"): "accept", ("history", "list_of_number"): "refuse", ("history", "bool"): "refuse",
+               ("counts", "set_of_integer"): "accept", ("counts", "list_of_boolean"): "refuse",
+               ("names", "list_of_string"): "accept", ("names", "none"): "accept", ("names", "set_of_integer"): "refuse"}
+    bexp = os.path.join(VERIF, "schemas", "py_beh.exp")
+    bdirw = os.path.join(wroot, "beh")
+    os.makedirs(bdirw)
+    rcb, ob, eb = sh([os.path.join(bdir, "bin", "exp2python"), bexp], cwd=bdirw, timeout=120)
+    rcp, op_, ep = sh([sys.executable, os.path.join(HARNESS, "py_beh_probe.py"), bdirw, "beh"], timeout=120)
+    seen_beh = 0
+    hist["behaviour_probes"] = 0
+    for line in op_.split("\n"):
+        f = line.split()
+        bad = None
+        sigb = None
+        if not f:
+            continue
+        if f[0] == "ERR":
+            bad = "the module written for schemas/py_beh.exp cannot be exercised: %s" % line
+        elif f[0] == "DERIVE" and len(f) == 3:
+            seen_beh += 1
+            try:
+                okv = abs(float(f[2]) - BEH_DERIVE[f[1]]) < 1e-9
+            except (ValueError, KeyError):
+                okv = False
+            if not okv:
+                bad = "DERIVE attribute %s of budget(20., 8., 2., 9, 4, 2) evaluates to %s, the EXPRESS expression gives %s" % (f[1], f[2], BEH_DERIVE.get(f[1]))
+                if f[1] == "idiv":
+                    sigb = "python_div_is_true_division"
+        elif f[0] == "RULE" and len(f) == 3:
+            seen_beh += 1
+            if f[2] != "ok":
+                bad = "WHERE rule %s holds for budget(20., 8., 2., 9, 4, 2) but the generated method says %s" % (f[1], f[2])
+        elif f[0] == "SET" and len(f) == 4:
+            seen_beh += 1
+            want = BEH_SET.get((f[1], f[2]))
+            if want and f[3] != want:
+                bad = "switch.%s := <%s> is %sd by the generated setter, EXPRESS typing says %s" % (f[1], f[2], f[3], want)
+        if bad:
+            oracle_fail += 1
+            res.violation(bad, {"input_file": bexp, "replay": "exp2python schemas/py_beh.exp; python3 harness/py_beh_probe.py <dir> beh"}, signature=sigb)
+        else:
+            hist["behaviour_probes"] += 1
+    evals += 1
+    if seen_beh < len(BEH_DERIVE) + 2 + len(BEH_SET) and not any(l.startswith("ERR") for l in op_.split("\n")):
+        res.violation("the behaviour probe printed %d observations, %d expected: %s" % (seen_beh, len(BEH_DERIVE) + 2 + len(BEH_SET), (op_ + ep)[-300:]),
+                      {"input_file": bexp}, found_input=False)
+
     def save(name, text):
         os.makedirs(res.replay_dir, exist_ok=True)
         p = os.path.join(res.replay_dir, name)
